@@ -560,6 +560,21 @@ class C05(Monitor):
                 self.flag('acked-unsent', 'publish Deferred succeeded before the message was ever transmitted', st)
             if e['val'] != rec['id']:
                 self.flag('callback-value', 'callback value %r differs from msgId %r' % (e['val'], rec['id']), st)
+        # "succeeds ... when a PUBACK for its packet identifier arrives" / "a PUBCOMP ... after the PUBREC": the acknowledgement its QoS level
+        # requires, arriving for an exchange that is open on a connected protocol, does complete it -- whatever else is still in flight
+        if op[0] == 'recv' and st.completed and not st.desync and not any(x['k'] in ('esc', 'abort') for x in st.ev):
+            pr = bk.proto(st.p)
+            if pr is not None and not pr['lost'] and st.p < len(st.pre_states) and st.pre_states[st.p] == 'C':
+                fired_ok = {x['d'] for x in st.ev if x['k'] == 'fired' and x['ok']}
+                seen_ids = set()
+                for raw, pk in st.completed:
+                    if not pk or not pk.get('exact') or pk['type'] not in ('PUBACK', 'PUBCOMP') or pk['id'] in seen_ids:
+                        continue
+                    seen_ids.add(pk['id'])
+                    q, want = (1, 'inflight') if pk['type'] == 'PUBACK' else (2, 'released')
+                    for r in bk.pubs[pr['addr']]:
+                        if r['qos'] == q and r['id'] == pk['id'] and st.pre_stage.get(id(r)) == want and r.get('d') is not None and r['d'] not in fired_ok:
+                            self.flag('ack-ignored', '%s for identifier %d arrived for an open QoS %d exchange, yet its Deferred did not succeed' % (pk['type'], pk['id'], q), st)
         # acknowledgements for identifiers with no exchange open change nothing
         if op[0] == 'recv' and st.completed and all(pk and pk['type'] in ('PUBACK', 'PUBREC', 'PUBCOMP') and pk.get('exact') for raw, pk in st.completed):
             pr = bk.proto(st.p)
@@ -1112,6 +1127,14 @@ class C13b(Monitor):
             ct = [tid for tid, t in timers.items() if t['kind'] == 'connack' and t['owner'] == p]
             if len(ct) > n_d:
                 self.once(('connack', p, tuple(ct)), 'stale-connack-timer', 'CONNACK timer(s) %s of connection %d pending although the connect request is settled' % (ct, p), st)
+        # every connection that was ever opened has been reported lost: what is still pending can only be onDisconnection notifications
+        # and CONNACK timeouts ("after [they] have run no timer of that connection remains") -- also timers the client gave no owner
+        opened = [q for q in bk.protos if q['conns']]
+        if opened and all(q['lost'] for q in opened):
+            left = [tid for tid, t in timers.items() if t['kind'] not in ('ondisc', 'connack')]
+            if left:
+                self.once(('alllost', tuple(left)), 'timer-after-loss', 'every connection has been reported lost, yet timers %s (%s) are pending'
+                          % (left, ', '.join(sorted({timers[t]['kind'] for t in left}))), st)
         # connected, keepalive off, nothing outstanding: only undelivered onDisconnection notifications may be pending
         for p, q in enumerate(bk.protos):
             if q['lost'] or p >= len(st.states) or st.states[p] != 'C' or q['keepalive'] != 0:
